@@ -44,6 +44,15 @@ def check_c09(case, ctx):
     p_same = guarded(m_same.predict_win, objs, what="predict_win (shared ids)")
     if p_same != p:
         raise Violation("depends-on-ids", f"{kind}: predict_win = {p!r}, but {p_same!r} when all ratings carry the same id")
+    # the returned list belongs to the caller: converting it to percentages in place must not change later answers
+    m_mut = mk_model(cfg)
+    first = guarded(m_mut.predict_win, mk_teams(m_mut, teams), what="predict_win")
+    for k in range(len(first)):
+        first[k] = first[k] * 100.0
+    again = guarded(mk_model(cfg).predict_win, mk_teams(m_mut, teams), what="predict_win")
+    ctx.called(2)
+    if again != p:
+        raise Violation("returned-list-is-shared", f"{kind}: after the caller modified a returned list in place, predict_win returns {again!r} instead of {p!r}")
     # permutation
     perm = case["perm"]
     p2 = pw(cfg, [teams[k] for k in perm], ctx)
